@@ -35,9 +35,14 @@ IDENTITY_KEYS = {"id", "class_name", "name"}
 def _state_keys(m, param: str | None):
     """keys written to the state dict (extract) or read from it (apply)."""
     keys = set()
+    # the state dict: a parameter of the method (apply_state) or the local it returns (extract_state) - by role, not by name
+    state_names = {a.arg for a in m.node.args.args[1:]}
+    for n in ast.walk(m.node):
+        if isinstance(n, ast.Return) and isinstance(n.value, ast.Name):
+            state_names.add(n.value.id)
     for n in ast.walk(m.node):
         if isinstance(n, ast.Subscript) and isinstance(n.slice, ast.Constant) and isinstance(n.slice.value, str) \
-                and isinstance(n.value, ast.Name) and n.value.id == "state":
+                and isinstance(n.value, ast.Name) and n.value.id in state_names:
             keys.add(n.slice.value)
         if isinstance(n, ast.Call) and call_attr(n) == "NodeState":
             keys |= {k.arg for k in n.keywords if k.arg}
